@@ -2,6 +2,7 @@ package main
 
 import (
 	"fmt"
+	authtypes "github.com/cosmos/cosmos-sdk/x/auth/types"
 	"math/big"
 	"sort"
 	"strings"
@@ -28,20 +29,20 @@ type clPos struct {
 }
 
 type clH struct {
-	e      *Env
-	c      *sim.Chain
-	pools  []uint64
-	denoms map[uint64][2]string
-	pos    []clPos
-	feeIn  map[string]*big.Int // fee account inflow per pool/denom (from balance deltas)
-	lastErr string
-	fp      *clForcedPos // directed script: next createPosition uses these values
-	fs      string       // directed script: next swap is "tofee" (base in, lands on the next tick, pool fee on) or ""
-	lastToTick bool // the previous swap was aimed exactly at the next initialised tick
+	e          *Env
+	c          *sim.Chain
+	pools      []uint64
+	denoms     map[uint64][2]string
+	pos        []clPos
+	feeIn      map[string]*big.Int // fee account inflow per pool/denom (from balance deltas)
+	lastErr    string
+	fp         *clForcedPos // directed script: next createPosition uses these values
+	fs         string       // directed script: next swap is "tofee" (base in, lands on the next tick, pool fee on) or ""
+	lastToTick bool         // the previous swap was aimed exactly at the next initialised tick
 	lastDir    int
-	dustDir    int  // ≥ 0: the next swap is a dust swap in this direction
-	poolMin map[uint64]sdkmath.LegacyDec // smallest sqrt price seen in the pool: current price after every operation, tick prices of every stored tick
-	spCache map[string]sdkmath.LegacyDec
+	dustDir    int                          // ≥ 0: the next swap is a dust swap in this direction
+	poolMin    map[uint64]sdkmath.LegacyDec // smallest sqrt price seen in the pool: current price after every operation, tick prices of every stored tick
+	spCache    map[string]sdkmath.LegacyDec
 }
 
 type clForcedPos struct {
@@ -223,7 +224,9 @@ func (h *clH) dump(id uint64) {
 	}
 }
 
-func (h *clH) amount(maxDigits int) sdkmath.Int { return sdkmath.NewIntFromBigInt(h.e.R.Big(maxDigits)) }
+func (h *clH) amount(maxDigits int) sdkmath.Int {
+	return sdkmath.NewIntFromBigInt(h.e.R.Big(maxDigits))
+}
 
 // amountToNextTick: the whole-unit input that moves the price exactly onto the next initialised tick (base in: downwards)
 func (h *clH) amountToNextTick(id uint64, baseIn bool) (sdkmath.Int, bool) {
@@ -653,7 +656,7 @@ func (h *clH) swap(pool uint64) {
 				})
 				cls := class(err, p)
 				h.undoIf(cls)
-		h.undoIf(cls)
+				h.undoIf(cls)
 				e.Oracle("no_panic", cls != "panic", "swapIn-back")
 				if cls == "ok" {
 					e.Obs("ok out=%s", back)
@@ -874,9 +877,18 @@ func (h *clH) step() {
 		d := h.denoms[pool]
 		who := e.R.N(len(c.Accs))
 		coins := sdk.NewCoins(sdk.NewCoin(e.R.Pick(d[0], d[1], "urise"), h.amount(16)))
-		e.In("incentive %d %s %s", pool, accName(who), coinsStr(coins))
-		err, p := c.Call(func(ctx sdk.Context) error {
-			return c.App.LiquiditypoolKeeper.AllocateIncentive(ctx, pool, c.Accs[who].Addr, coins)
+		sender, senderName := c.Accs[who].Addr, accName(who)
+		call := c.Call
+		if e.R.N(5) == 0 {
+			// the only caller on the chain, x/liquidityincentive's begin-blocker, has no cache context and only logs a failure:
+			// whatever a failing allocation wrote stays.  Sender without funds, state kept on failure.
+			sender, senderName = authtypes.NewModuleAddress("svh-unfunded"), "nobody"
+			call = c.CallKeep
+			e.Stat("incentive.unfunded_kept")
+		}
+		e.In("incentive %d %s %s", pool, senderName, coinsStr(coins))
+		err, p := call(func(ctx sdk.Context) error {
+			return c.App.LiquiditypoolKeeper.AllocateIncentive(ctx, pool, sender, coins)
 		})
 		cls := class(err, p)
 		h.undoIf(cls)
